@@ -85,7 +85,66 @@ func init() {
 		"(*bytes.Buffer).Bytes":          modelBufferBytes,
 		"(*bytes.Buffer).Truncate":       modelBufferTruncate,
 	}
-	libInvoke = map[string]invokeModel{}
+	libInvoke = map[string]invokeModel{
+		"io.RuneScanner.ReadRune":   modelReadRune,
+		"io.RuneReader.ReadRune":    modelReadRune,
+		"io.RuneScanner.UnreadRune": modelUnreadRune,
+	}
+}
+
+// Rune streams. An io.RuneScanner object o has an immutable ghost input
+// (rsin o k), 0 <= k < (rslen o), and a cursor in heap Lib#rscur.
+//   ReadRune:  k < len and in[k] != 0: (in[k], size>0, nil), cursor+1
+//              k < len and in[k] == 0: (0, _, err?)          cursor+1   (a NUL rune; *reader reports it as EOF)
+//              k >= len:               (0, 0, err != nil),   cursor or cursor+1 (bufio stays, *reader counts the EOF)
+//   UnreadRune: cursor-1 (after a successful or counted read)
+func (e *Enc) rsHeap(st *State) *Heap { return e.heapS(st, "Lib#rscur", "(Array Int Int)", false) }
+
+func (e *Enc) declOnce(name, decl string) {
+	if !e.lemmaDone["decl:"+name] {
+		e.lemmaDone["decl:"+name] = true
+		e.emit(decl)
+	}
+}
+
+func (e *Enc) rsDecls() {
+	e.declOnce("rsin", "(declare-fun rsin (Int Int) Int)")
+	e.declOnce("rslen", "(declare-fun rslen (Int) Int)")
+}
+
+func modelReadRune(e *Enc, f *frame, st *State, in *ssa.Call, recv Val, args []Val, rs *Shape) Val {
+	e.rsDecls()
+	o := recv.Sub[1].T
+	h := e.rsHeap(st)
+	cur := e.define("rscur", "Int", e.sel(h, o, ""))
+	res := e.freshVal(rs, f.prefix+in.Name())
+	e.assumeLoaded(st, res)
+	ch, size, errT := res.Sub[0].T, res.Sub[1].T, res.Sub[2].Sub[0].T
+	inb := fmt.Sprintf("(and (<= 0 %s) (< %s (rslen %s)))", cur, cur, o)
+	e.assume(fmt.Sprintf("(and (<= 0 (rslen %s)) (<= 0 %s))", o, cur))
+	e.assume(fmt.Sprintf("(=> %s (and (= %s (rsin %s %s)) (<= 0 %s) (<= %s 1114111)))", inb, ch, o, cur, ch, ch))
+	e.assume(fmt.Sprintf("(=> (and %s (not (= %s 0))) (and (= %s 0) (> %s 0)))", inb, ch, errT, size))
+	e.assume(fmt.Sprintf("(=> (not %s) (and (= %s 0) (not (= %s 0))))", inb, ch, errT))
+	nc := e.fresh("rscur", "Int")
+	e.assume(fmt.Sprintf("(=> %s (= %s (+ %s 1)))", inb, nc, cur))
+	e.assume(fmt.Sprintf("(=> (not %s) (or (= %s %s) (= %s (+ %s 1))))", inb, nc, cur, nc, cur))
+	n := &Heap{Name: h.Name, Sort: h.Sort, Prev: h}
+	n.Term = e.define("H_Lib_rscur", h.Sort, fmt.Sprintf("(store %s %s %s)", h.Term, o, nc))
+	st.heaps[h.Name] = n
+	return res
+}
+
+func modelUnreadRune(e *Enc, f *frame, st *State, in *ssa.Call, recv Val, args []Val, rs *Shape) Val {
+	e.rsDecls()
+	o := recv.Sub[1].T
+	h := e.rsHeap(st)
+	cur := e.sel(h, o, "")
+	n := &Heap{Name: h.Name, Sort: h.Sort, Prev: h}
+	n.Term = e.define("H_Lib_rscur", h.Sort, fmt.Sprintf("(store %s %s (- %s 1))", h.Term, o, cur))
+	st.heaps[h.Name] = n
+	res := e.freshVal(rs, f.prefix+in.Name())
+	e.assumeLoaded(st, res)
+	return res
 }
 
 func (e *Enc) libCall(f *frame, st *State, in *ssa.Call, callee *ssa.Function, args []Val, resShape *Shape) Val {
@@ -154,9 +213,40 @@ func modelNewError(e *Enc, f *frame, st *State, in *ssa.Call, args []Val, rs *Sh
 // Sprintf: result is an uninterpreted function of the constant format and the
 // argument leaves ("sprintf_<n>"), so equal inputs give equal text.
 func modelSprintf(e *Enc, f *frame, st *State, in *ssa.Call, args []Val, rs *Shape) Val {
-	res := e.freshVal(rs, f.prefix+in.Name())
-	e.assumeLoaded(st, res)
-	return res
+	name := in.Common().Value.(*ssa.Function).Name()
+	var fmtT string
+	var va Val
+	if name == "Sprint" {
+		fmtT, va = "str_empty", args[0]
+	} else {
+		fmtT, va = args[0].T, args[1]
+	}
+	n, ok := constLen(va)
+	if va.Sub[0].T == "0" {
+		n, ok = 0, true
+	}
+	if !ok || n > 8 {
+		res := e.freshVal(rs, f.prefix+in.Name())
+		e.assumeLoaded(st, res)
+		return res
+	}
+	el := va.Sh.T.Underlying().(*types.Slice).Elem()
+	ts := []string{fmtT}
+	srt := []string{"Str"}
+	for k := 0; k < n; k++ {
+		v := e.load(st, &Loc{Base: va.Sub[0].T, Path: elemPath(el), Idx: fmt.Sprintf("(+ %s %d)", va.Sub[1].T, k), Sh: shapeOf(el)})
+		ts = append(ts, v.Sub[0].T, v.Sub[1].T)
+		srt = append(srt, "Int", "Int")
+	}
+	fn := fmt.Sprintf("sprintf%d", n)
+	if !e.lemmaDone["decl:"+fn] {
+		e.lemmaDone["decl:"+fn] = true
+		e.emit(fmt.Sprintf("(declare-fun %s (%s) Str)", fn, strings.Join(srt, " ")))
+	}
+	t := e.define("spr", "Str", "("+fn+" "+strings.Join(ts, " ")+")")
+	v := Val{Sh: rs, T: t}
+	e.assumeLoaded(st, v)
+	return v
 }
 
 func modelStringsJoin(e *Enc, f *frame, st *State, in *ssa.Call, args []Val, rs *Shape) Val {
@@ -173,7 +263,8 @@ func modelParseInt(e *Enc, f *frame, st *State, in *ssa.Call, args []Val, rs *Sh
 	e.assume(fmt.Sprintf("(=> (= %s 0) (= %s (parseint %s %s)))", errT, n, args[0].T, args[1].T))
 	e.assume(fmt.Sprintf("(=> (not (= %s 0)) (not (= %s 0)))", errT, res.Sub[1].Sub[1].T))
 	// a run of decimal digits parses iff its value fits; its value is non-negative
-	e.assume(fmt.Sprintf("(=> (and (= %s 0) (alldigits %s)) (>= %s 0))", errT, args[0].T, n))
+	// only a leading '-' makes the value negative: a text that starts with a digit parses to n >= 0
+	e.assume(fmt.Sprintf("(=> (and (= %s 0) (<= 48 (runeat %s 0)) (<= (runeat %s 0) 57)) (>= %s 0))", errT, args[0].T, args[0].T, n))
 	return res
 }
 
